@@ -8,7 +8,7 @@
    excluded: see C07_stream_cap0_refuted).  [tok_op]: the calls are next / read; read_bytes in the
    middle of the token stream is NOT chunk independent in the code (C07_read_bytes_after_token_refuted). *)
 From JV Require Import Bytes Tables U64Swar BufWin TextTok TextReader TextRef TextOps.
-From JV.proofs Require Import BufWinProofs TextRefProofs TextReaderMainProofs TextOpsProofs.
+From JV.proofs Require Import BufWinProofs TextRefProofs TextReaderMainProofs TextReaderFullProofs TextOpsProofs.
 Open Scope nat_scope.
 
 (* one call of next on ANY reachable reader state (rok: the window and the unread data are a suffix
@@ -22,6 +22,16 @@ Theorem C07_next_call_eq_reference : forall input fuel r,
   stepres_ws input (cap (rbw r)) (length (rest (rrd r))) (fst (tk (startb r) (stream_of r))) (next_opt fuel r).
 Proof. exact next_opt_step. Qed.
 Print Assumptions C07_next_call_eq_reference.
+
+(* ... and when the buffer cannot hold what the next token needs, that call (next or read alike:
+   read only rewrites a clean end) answers BufferFull -- on any reachable state, not only in the
+   next-until-the-end driver of C07_stream_full *)
+Theorem C07_next_call_full : forall input fuel r,
+  wf_bytes input -> rok input r -> 0 < cap (rbw r) -> length (rest (rrd r)) + 2 <= fuel ->
+  cap (rbw r) < snd (tk (startb r) (stream_of r)) ->
+  exists r', next_opt fuel r = NErr E_BufferFull r'.
+Proof. exact next_opt_full. Qed.
+Print Assumptions C07_next_call_full.
 
 (* any list of next / read calls: the streaming reader returns the reference items ... *)
 Theorem C07_ops_stream_eq_reference : forall input sch capv ops,
@@ -96,6 +106,18 @@ Theorem C07_header_then_tokens : forall input sch capv n ops,
   XBytes (firstn n input) :: ref_items ops (fst (fst (rr false (skipn n input)))).
 Proof. exact header_then_tokens. Qed.
 Print Assumptions C07_header_then_tokens.
+
+(* a buffer that is too small, for any list of next / read calls: the calls return a prefix of the
+   reference tokens (a proper one: something is always left) and then BufferFull -- never a clean
+   end, never an Eof, never a token the reference does not have at that place *)
+Theorem C07_ops_stream_full : forall input sch capv ops,
+  wf_bytes input -> no_fail sch -> 0 < capv < need input -> Forall tok_op ops ->
+  exists pre suf,
+    (items_of (stream_ops capv sch input ops) = map XTok pre /\ length pre = length ops \/
+     items_of (stream_ops capv sch input ops) = map XTok pre ++ [XErr E_BufferFull]) /\
+    tokens_of input = map OTok pre ++ suf /\ suf <> [].
+Proof. exact ops_stream_full. Qed.
+Print Assumptions C07_ops_stream_full.
 
 (* ---------- witnesses: what the hypotheses exclude ---------- *)
 Definition C07_w_input : bytes := [97;98;99;100;101;102;103;104;105;106;32;107;108;109;110;111;112;113;114;115;116]%N.  (* "abcdefghij klmnopqrst" *)
